@@ -27,7 +27,7 @@ POSITIONS = [
 ]
 LITERALS = ['1' * 250, '555-' + '1' * 250, '', '1', '0001', '12345', '-1', '1.5', 'abc', '20200101', '2020', '202013', '20200230', '20200229', '1200', '2500',
             '120000.1234+0100', '12+1500', '20200101120000.12345', 'x' * 250, 'a^b', 'a&b', 'a~b', ' 1', '1 ', '+5', '1_0', 'NaN',
-            '1E3', 'M', 'Y', '\\F\\', 'a\\b', '19000101000000+1400', '99', '0', '00', '1.', '.5', 'A^B^C^D^E^F^G^H^I^J^K^L^M^N^O^P^Q^R^S^T^U^V^W^X']
+            '1E3', '-1234', '-1234567890123456', '123456789012345.6', '0.0000000000000001', 'M', 'Y', '\\F\\', 'a\\b', '19000101000000+1400', '99', '0', '00', '1.', '.5', 'A^B^C^D^E^F^G^H^I^J^K^L^M^N^O^P^Q^R^S^T^U^V^W^X']
 NP, NLIT = len(POSITIONS), len(LITERALS)
 
 
@@ -43,8 +43,11 @@ def _overlong_leaves(el):
         v = el.value
         ml = getattr(v, 'max_length', None)
         if v is not None and ml is not None:
-            if len('{0}'.format(v.value if v.value is not None else '')) > ml:
-                out.append('%s(%d chars, max %d)' % (type(v).__name__, len('{0}'.format(v.value)), ml))
+            import numbers
+            # numerics: the text that is emitted; textual values: the value itself (escaping does not count)
+            text = v.to_er7() if isinstance(v.value, numbers.Number) else '{0}'.format(v.value if v.value is not None else '')
+            if len(text) > ml:
+                out.append('%s(%d chars, max %d)' % (type(v).__name__, len(text), ml))
         return out
     for c in el.children:
         out += _overlong_leaves(c)
@@ -364,6 +367,34 @@ def _ob_fld2(init: int, a1: int, a2: int) -> bool:
         return hist_check('fld', init, [FLD_ACTS[a1], FLD_ACTS[a2]])
 
 
+CORE_SEG = H.actions('seg', H.CORE_OPS + [H.SETELEM, H.SETDTOK, H.DELCH])
+CORE_FLD = H.actions('fld', H.CORE_OPS + [H.SETELEM, H.SETDTOK, H.DELCH])
+NCS, NCF = len(CORE_SEG), len(CORE_FLD)
+TABLE.update({'_ob_seg3': ('seg', CORE_SEG, 3), '_ob_fld3': ('fld', CORE_FLD, 2)})
+
+
+def _ob_seg3(init: int, a1: int, a2: int, a3: int) -> bool:
+    """
+    pre: 0 <= init < 3 and 1 <= a1 < NCS and 1 <= a2 < NCS and 1 <= a3 < NCS
+    pre: in_part(a1 * NCS + a2)
+    post: _
+    """
+    init, a1, a2, a3 = bsearch(init, 3), bsearch(a1, NCS), bsearch(a2, NCS), bsearch(a3, NCS)
+    with concrete():
+        return hist_check('seg', init, [CORE_SEG[a1], CORE_SEG[a2], CORE_SEG[a3]])
+
+
+def _ob_fld3(init: int, a1: int, a2: int, a3: int) -> bool:
+    """
+    pre: 0 <= init < 2 and 1 <= a1 < NCF and 1 <= a2 < NCF and 1 <= a3 < NCF
+    pre: in_part(a1 * NCF + a2)
+    post: _
+    """
+    init, a1, a2, a3 = bsearch(init, 2), bsearch(a1, NCF), bsearch(a2, NCF), bsearch(a3, NCF)
+    with concrete():
+        return hist_check('fld', init, [CORE_FLD[a1], CORE_FLD[a2], CORE_FLD[a3]])
+
+
 def explain(call):
     m = re.match(r'(\w+)\((.*)\)$', call, re.S)
     a, kw = eval('(lambda *a, **k: (a, k))(%s)' % m.group(2))
@@ -414,5 +445,10 @@ SPEC = {
          'bound': 'Message ADT_A01: 2 initial states x every history of length <=2 over %d actions, STRICT vs TOLERANT' % NMSG},
         {'name': 'H.fld', 'fn': '_ob_fld2', 'parts': 16, 'cond_timeout': 900, 'path_timeout': 60,
          'bound': 'Field PID_5: 2 initial states x every history of length <=2 over %d actions, STRICT vs TOLERANT' % NFLD},
-    ],
+    ] + ([
+        {'name': 'H.seg.len3', 'fn': '_ob_seg3', 'parts': 48, 'cond_timeout': 3000, 'path_timeout': 60,
+         'bound': 'Segment PID: 3 initial states x every history of length 3 over %d core actions, STRICT vs TOLERANT' % (NCS - 1)},
+        {'name': 'H.fld.len3', 'fn': '_ob_fld3', 'parts': 48, 'cond_timeout': 3000, 'path_timeout': 60,
+         'bound': 'Field PID_5: 2 initial states x every history of length 3 over %d core actions, STRICT vs TOLERANT' % (NCF - 1)},
+    ] if THOROUGH else []),
 }
